@@ -179,8 +179,9 @@ def judge(family, case, rec):
     rec.case(family, case, bool(nontrivial), key=key)
     before = A.copy()
     for i in range(p):
+        ii = np.int64(i) if (i + p) % 3 == 0 else i
         for name in ("pa", "ch", "neighbors", "adj", "ancestors", "an", "descendants", "desc", "chain_component"):
-            _call(rec, family, case, name, getattr(U, name), i, A)
+            _call(rec, family, case, name, getattr(U, name), ii, A)
     rng = util.rng_for("C15j", rec.seed, family, tuple(out))
     pair_list = [(i, j) for i in range(p) for j in range(p)]
     if p > 5:
@@ -213,8 +214,10 @@ def judge(family, case, rec):
                 B = set(int(v) for v in np.where(lab == 3)[0])
                 if Aa and B:
                     triples.append((S, Aa, B))
-        for (S, Aa, B) in triples:
+        for t_, (S, Aa, B) in enumerate(triples):
             S0, A0, B0 = set(S), set(Aa), set(B)
+            if t_ % 4 == 3:
+                S, Aa, B = frozenset(S), frozenset(Aa), frozenset(B)
             _call(rec, family, case, "separates", U.separates, S, Aa, B, A)
             if (S, Aa, B) != (S0, A0, B0):
                 rec.violation("C15:separates-mutates-sets", family, case, "separates modified its set arguments")
